@@ -1,7 +1,7 @@
 #!/bin/bash
 # run every registered quick (or $TIER) check on the unchanged tree for the given seeds; prints non-zero exits
-cd /verif
+cd "$(dirname "$0")/.."
 TIER=${TIER:-quick}
 for seed in "$@"; do
   for p in 01 02 03 04 05 06 07 08 09 10 11 12 13 14 15 16 17 18 19 20; do echo "$seed C$p"; done
-done | xargs -P5 -L1 sh -c 'VERIF_SEED=$0 /venv/bin/python check.py $1 --tier '$TIER' > /tmp/clean_$0_$1.out 2> /tmp/clean_$0_$1.err; echo "seed $0 $1 exit $?"' | sort | grep -v "exit 0" ; echo "clean run done for seeds $@"
+done | xargs -P5 -L1 sh -c 'VERIF_SEED=$0 /venv/bin/python check.py $1 --tier '$TIER' > /tmp/clean_${TIER:-quick}_$0_$1.out 2> /tmp/clean_${TIER:-quick}_$0_$1.err; echo "seed $0 $1 exit $?"' | sort | grep -v "exit 0" ; echo "clean run done for seeds $@"
